@@ -28,7 +28,7 @@ var mockOtherNames = []string{"count", "total", "amount", "flag", "ratio", "leve
 var mockIntExamples = []string{"7", "-3", "+5", "0", "9223372036854775807", "-9223372036854775808", "9223372036854775808", "abc", "1.5", " 7", "0x10", "1_000", "12"}
 var mockBoolExamples = []string{"true", "false", "1", "0", "T", "F", "TRUE", "False", "yes", "tRuE"}
 var mockFloatExamples = []string{"1.5", "-2", "1e3", "0", "-0", ".5", "5.", "1e400", "abc", "0x1p-2", "1_0", "2.25", "NaN", "Inf", "-Infinity"}
-var mockStringPlain = []string{"Elm Street", "héllo ✓", "a b  c", "Ünïcode–dash", "x", "日本語", "tab\tinside", "it's", "50% off", "C:/path", "{json}"}
+var mockStringPlain = []string{"", "Elm Street", "héllo ✓", "a b  c", "Ünïcode–dash", "x", "日本語", "tab\tinside", "it's", "50% off", "C:/path", "{json}"}
 
 // examples whose Go-literal reading differs from their text, but which still give a parsable file
 var mockStringEscapes = []string{`a\tb`, `back\\slash`, `q\"uote`, `\u00e9t\u00e9`, `\101BC`, `\xc3\xa9`, `x", "y`, `\x41`}
